@@ -10,7 +10,7 @@ import (
 
 // Shapes lists every data shape known to the generator.
 var Shapes = []string{"random", "text", "utf8", "utf8wide", "dna", "dnalines", "exe", "wav", "bmp",
-	"runs", "smallalpha", "skew", "zeros", "gzipmagic", "mixed", "ramp", "numeric", "html", "sparse", "x86", "hex", "nibbles", "alpha15", "alpha17", "base64", "dnarep", "bmptile", "crlfsplit", "tailrandom", "utf8cjk", "utf8dmg"}
+	"runs", "smallalpha", "skew", "zeros", "gzipmagic", "mixed", "ramp", "numeric", "html", "sparse", "x86", "hex", "nibbles", "alpha15", "alpha17", "base64", "dnarep", "bmptile", "crlfsplit", "tailrandom", "utf8cjk", "utf8dmg", "magictext", "magicmix", "hotquarter", "piecewise"}
 
 var words = strings.Fields(`the of and to in is that it was for on are as with his they be at one have this from
 or had by hot word but what some we can out other were all there when up use your how said an each she which do
@@ -400,6 +400,70 @@ func Make(shape string, seed int64, n int) []byte {
 			b = append(b, byte('0'+r.Intn(10)))
 			if r.Intn(6) == 0 {
 				b = append(b, ',')
+			}
+		}
+	case "magictext", "magicmix":
+		// a container of small "files": every 1024 bytes (so every block of any legal size that is a multiple of 1024) starts with
+		// a file signature; the content is text (magictext) or rotates over text / DNA / x86 / multimedia-like (magicmix)
+		sigs := [][]byte{{'B', 'M', 0x36, 0x10}, {'R', 'I', 'F', 'F'}, {0x7F, 'E', 'L', 'F'}, {'P', 'K', 3, 4}, {'G', 'I', 'F', '8'},
+			{0x1F, 0x8B, 8, 0}, {'M', 'Z', 0x90, 0}, {'%', 'P', 'D', 'F'}, {0x89, 'P', 'N', 'G'}, {'P', '5', 0x0A, '6'}, {0xFF, 0xD8, 0xFF, 0xE0}, {'f', 'L', 'a', 'C'}}
+		kinds := []string{"text", "dna", "x86", "wav", "html", "utf8"}
+		var body []byte
+		if shape == "magictext" {
+			body = Make("text", seed+5, n)
+		}
+		k := int(seed) & 0xFFFF
+		for len(b) < n {
+			piece := 1024
+			if len(b)+piece > n {
+				piece = n - len(b)
+			}
+			var src []byte
+			if shape == "magictext" {
+				src = body[len(b) : len(b)+piece]
+			} else {
+				src = Make(kinds[(k+len(b)/4096)%len(kinds)], seed+int64(len(b)), piece)
+			}
+			start := len(b)
+			b = append(b, src...)
+			// one 1024-byte piece in eight keeps its own first bytes
+			if (start/1024+k)%8 != 7 {
+				copy(b[start:], sigs[(start/1024+k)%len(sigs)])
+			}
+		}
+	case "hotquarter":
+		// skewed and not stationary: half 0x00, a quarter 0x01, and the other 254 values concentrated in one 4 KiB quarter of
+		// every 16 KiB (a prefix code costs up to 12 bits per byte there, 1-2 bits elsewhere)
+		hot := int(seed) & 3
+		for len(b) < n {
+			q := (len(b) >> 12) & 3
+			x := r.Intn(4)
+			switch {
+			case q == hot && x >= 1:
+				b = append(b, byte(2+r.Intn(254)))
+			case x <= 1:
+				b = append(b, 0)
+			case x == 2:
+				b = append(b, 1)
+			default:
+				b = append(b, byte(r.Intn(3)))
+			}
+		}
+	case "piecewise":
+		// piecewise stationary: every 4 KiB piece has its own small alphabet and skew
+		for len(b) < n {
+			base := byte(r.Intn(256))
+			span := 1 + r.Intn(40)
+			if r.Intn(4) == 0 {
+				span = 256
+			}
+			geo := r.Intn(3)
+			for i := 0; i < 4096 && len(b) < n; i++ {
+				v := r.Intn(span)
+				if geo > 0 {
+					v = v * r.Intn(span+1) / (span + 1)
+				}
+				b = append(b, base+byte(v))
 			}
 		}
 	case "gzipmagic":
